@@ -38,6 +38,7 @@ sub!(c06, "c06.rs");
 sub!(relay, "relay.rs");
 sub!(c16, "c16.rs");
 sub!(c13, "c13.rs");
+sub!(c10, "c10.rs");
 
 pub async fn main() -> Result<(), easy_error::Terminator> {
     let args: Vec<String> = std::env::args().collect();
@@ -64,6 +65,7 @@ pub async fn main() -> Result<(), easy_error::Terminator> {
         "c04" => relay::run_c04(&mut out).await,
         "c16" => c16::run(&mut out).await,
         "c13" => c13::run(&mut out).await,
+        "c10" => c10::run(&mut out).await,
         _ => {
             eprintln!("unknown mode {}", mode);
             std::process::exit(2);
